@@ -1,5 +1,5 @@
 (* Proofs/TriaAdjP.v -- the connectivity predicates agree with brute-force counting (C09). *)
-From Coq Require Import List Arith Bool PeanoNat Permutation Sorted Lia.
+From Coq Require Import List Arith Bool PeanoNat Permutation Sorted Lia ZArith.
 From LaPyV Require Import Base.ListAux Model.TetMesh Model.TriaAdj Proofs.SortP.
 Import ListNotations.
 
@@ -250,3 +250,121 @@ Proof.
 Qed.
 Lemma unique_pairs_nodup l : NoDup (unique_pairs l).
 Proof. apply dedup_pairs_nodup, pairsort_sorted. Qed.
+
+(* ---- vertex_degrees: number of distinct neighbours *)
+Lemma sym_keys_swap ts i j : In (i, j) (sym_keys ts) -> In (j, i) (sym_keys ts).
+Proof.
+  unfold sym_keys. rewrite !in_flat_map. intros ([[a b] c] & Ht & H). exists (a, b, c). split; [exact Ht|].
+  cbn [sym1 In] in *. repeat (destruct H as [H|H]; [inversion H; subst; tauto|]). destruct H.
+Qed.
+
+Lemma nth_map_iota_gen {A} (g : nat -> A) d : forall m s k, (k < m)%nat -> nth k (map g (iota_from s m)) d = g (s + k)%nat.
+Proof.
+  induction m as [|m IH]; intros s k Hk; [lia|]. cbn [iota_from map]. destruct k as [|k]; [cbn [nth]; f_equal; lia|].
+  cbn [nth]. rewrite IH by lia. f_equal. lia.
+Qed.
+
+Theorem vertex_degrees_count_neighbours n ts j : (j < n)%nat ->
+  exists nb, NoDup nb /\ (forall i, In i nb <-> In (i, j) (sym_keys ts)) /\ nth j (vertex_degrees n ts) 0 = length nb.
+Proof.
+  intros Hj. unfold vertex_degrees. set (keys := unique_pairs (sym_keys ts)).
+  exists (map fst (filter (fun k => Nat.eqb (snd k) j) keys)). split; [|split].
+  - assert (ND : NoDup keys) by apply unique_pairs_nodup.
+    induction keys as [|[a b] keys IH]; [constructor|]. inversion ND as [|? ? Hn ND']; subst. cbn [filter snd].
+    destruct (Nat.eqb b j) eqn:E; [|apply IH; exact ND'].
+    cbn [map fst]. constructor; [|apply IH; exact ND'].
+    intros Hin. apply in_map_iff in Hin. destruct Hin as ([a' b'] & Ha & Hf). cbn [fst] in Ha. subst a'.
+    apply filter_In in Hf. destruct Hf as [Hf1 Hf2]. cbn [snd] in Hf2. apply Nat.eqb_eq in E, Hf2. subst. apply Hn. exact Hf1.
+  - intros i. rewrite in_map_iff. split.
+    + intros ([a b] & Ha & Hf). cbn [fst] in Ha. subst a. apply filter_In in Hf. destruct Hf as [Hf1 Hf2].
+      cbn [snd] in Hf2. apply Nat.eqb_eq in Hf2. subst b. unfold keys in Hf1. apply (proj1 (unique_pairs_in _ _)) in Hf1. exact Hf1.
+    + intros H. exists (i, j). split; [reflexivity|]. apply filter_In. split; [apply (proj2 (unique_pairs_in _ _)); exact H|cbn [snd]; apply Nat.eqb_refl].
+  - unfold iota. rewrite (nth_map_iota_gen _ 0%nat n 0 j Hj). cbn [Nat.add]. unfold count_if. rewrite map_length. reflexivity.
+Qed.
+
+(* ---- euler: V - E + F, E the number of undirected edges *)
+Lemma nodup_incl_len {A} (l m : list A) : NoDup l -> incl l m -> (length l <= length m)%nat.
+Proof. intros. apply NoDup_incl_length; assumption. Qed.
+
+Lemma sym_half (l : list (nat * nat)) : NoDup l -> (forall i j, In (i, j) l -> In (j, i) l) -> (forall i j, In (i, j) l -> i <> j) ->
+  length l = 2 * length (filter (fun k => Nat.ltb (fst k) (snd k)) l).
+Proof.
+  intros ND Hs Hd.
+  set (lo := filter (fun k => Nat.ltb (fst k) (snd k)) l). set (hi := filter (fun k => Nat.ltb (snd k) (fst k)) l).
+  assert (L : length l = length lo + length hi).
+  { unfold lo, hi. clear ND Hs. induction l as [|[a b] l IH]; [reflexivity|]. cbn [filter fst snd].
+    assert (a <> b) by (apply Hd; left; reflexivity).
+    assert (IH' : length l = length (filter (fun k => fst k <? snd k) l) + length (filter (fun k => snd k <? fst k) l))
+      by (apply IH; intros i j Hin; apply Hd; right; exact Hin).
+    destruct (Nat.ltb_spec a b), (Nat.ltb_spec b a); cbn [length]; lia. }
+  assert (E : length hi = length lo).
+  { apply Nat.le_antisymm.
+    - rewrite <- (map_length (fun k : nat * nat => (snd k, fst k)) hi).
+      apply NoDup_incl_length.
+      + apply FinFun.Injective_map_NoDup; [intros [a b] [c d] H; cbn in H; inversion H; reflexivity|apply NoDup_filter; exact ND].
+      + intros [a b] Hin. apply in_map_iff in Hin. destruct Hin as ([c d] & H & Hf). cbn [fst snd] in H. inversion H; subst.
+        apply filter_In in Hf. destruct Hf as [Hf1 Hf2]. apply filter_In. split; [apply Hs; exact Hf1|exact Hf2].
+    - rewrite <- (map_length (fun k : nat * nat => (snd k, fst k)) lo).
+      apply NoDup_incl_length.
+      + apply FinFun.Injective_map_NoDup; [intros [a b] [c d] H; cbn in H; inversion H; reflexivity|apply NoDup_filter; exact ND].
+      + intros [a b] Hin. apply in_map_iff in Hin. destruct Hin as ([c d] & H & Hf). cbn [fst snd] in H. inversion H; subst.
+        apply filter_In in Hf. destruct Hf as [Hf1 Hf2]. apply filter_In. split; [apply Hs; exact Hf1|exact Hf2]. }
+  lia.
+Qed.
+
+Theorem euler_is_V_minus_E_plus_F ts : Forall distinct_tri ts ->
+  euler ts = (Z.of_nat (length (unique_nat (tri_flat ts)))
+              - Z.of_nat (length (filter (fun k => Nat.ltb (fst k) (snd k)) (unique_pairs (sym_keys ts))))
+              + Z.of_nat (length ts))%Z.
+Proof.
+  intros Hd. unfold euler.
+  rewrite (sym_half (unique_pairs (sym_keys ts))).
+  - rewrite Nat.mul_comm, Nat.div_mul by lia. reflexivity.
+  - apply unique_pairs_nodup.
+  - intros i j H. apply (proj2 (unique_pairs_in _ _)). apply sym_keys_swap. apply (proj1 (unique_pairs_in _ _)) in H. exact H.
+  - intros i j H. apply (proj1 (unique_pairs_in _ _)) in H. eapply sym_keys_distinct; eassumption.
+Qed.
+
+Lemma combine_map_r' {A B} (h : A -> B) l : combine l (map h l) = map (fun x => (x, h x)) l.
+Proof. induction l as [|x l IH]; [reflexivity|]. cbn [map combine]. rewrite IH. reflexivity. Qed.
+
+(* ---- edges() on oriented meshes: every inner edge once, with the two triangles that carry its two half-edges *)
+Lemma find_tri_spec k ts : forall s a, find_tri k ts s = Some a ->
+  (s <= a)%nat /\ exists t, nth_error ts (a - s) = Some t /\ In k (hedges1 t).
+Proof.
+  induction ts as [|t ts IH]; intros s a H; cbn [find_tri] in H; [discriminate|].
+  destruct (existsb (pair_eqb k) (hedges1 t)) eqn:E.
+  - inversion H; subst. split; [lia|]. exists t. rewrite Nat.sub_diag. split; [reflexivity|].
+    apply existsb_exists in E. destruct E as (x & Hx & Hk). apply pair_eqb_spec in Hk. subst. exact Hx.
+  - apply IH in H. destruct H as (H1 & t' & H2 & H3). split; [lia|]. exists t'. replace (a - s)%nat with (S (a - S s)) by lia. split; assumption.
+Qed.
+Lemma find_tri_some k ts s : In k (hedges ts) -> exists a, find_tri k ts s = Some a.
+Proof.
+  revert s. induction ts as [|t ts IH]; intros s H; [destruct H|]. cbn [find_tri].
+  destruct (existsb (pair_eqb k) (hedges1 t)) eqn:E; [eauto|].
+  apply IH. unfold hedges in H. cbn [flat_map] in H. apply in_app_or in H. destruct H as [H|H]; [|exact H].
+  exfalso. assert (E' : existsb (pair_eqb k) (hedges1 t) = true) by (apply existsb_exists; exists k; split; [exact H|apply pair_eqb_refl]).
+  rewrite E in E'. discriminate.
+Qed.
+
+Theorem edges_inner_spec ts keys tids : edges_inner ts = Ok (keys, tids) ->
+  NoDup keys /\
+  (forall i j, In (i, j) keys <-> (i < j)%nat /\ In (i, j) (hedges ts) /\ count_pair (i, j) (sym_keys ts) = 2%nat) /\
+  length tids = length keys /\
+  Forall (fun '((i, j), (a, b)) =>
+            (In (i, j) (hedges ts) -> exists t, nth_error ts a = Some t /\ In (i, j) (hedges1 t)) /\
+            (In (j, i) (hedges ts) -> exists t, nth_error ts b = Some t /\ In (j, i) (hedges1 t))) (combine keys tids).
+Proof.
+  unfold edges_inner. destruct (negb (is_oriented ts)); [discriminate|]. intros H. inversion H; subst keys tids. clear H.
+  set (F := fun k : nat * nat => Nat.ltb (fst k) (snd k) && Nat.eqb (count_pair k (sym_keys ts)) 2).
+  split; [apply NoDup_filter, unique_pairs_nodup|]. split; [|split].
+  - intros i j. rewrite filter_In. unfold F. cbn [fst snd]. rewrite andb_true_iff, Nat.ltb_lt, Nat.eqb_eq.
+    split.
+    + intros (Hin & Hlt & Hc). apply (proj1 (unique_pairs_in _ _)) in Hin. tauto.
+    + intros (Hlt & Hin & Hc). split; [apply (proj2 (unique_pairs_in _ _)); exact Hin|tauto].
+  - rewrite map_length. reflexivity.
+  - rewrite combine_map_r'. apply Forall_forall. intros [[i j] [a b]] Hin. apply in_map_iff in Hin.
+    destruct Hin as ([i' j'] & E & _). inversion E; subst. clear E. unfold swap_pair. cbn [fst snd]. split; intros Hh.
+    + destruct (find_tri_some (i, j) ts 0 Hh) as (a & Ha). rewrite Ha. apply find_tri_spec in Ha. rewrite Nat.sub_0_r in Ha. apply Ha.
+    + destruct (find_tri_some (j, i) ts 0 Hh) as (a & Ha). rewrite Ha. apply find_tri_spec in Ha. rewrite Nat.sub_0_r in Ha. apply Ha.
+Qed.
